@@ -277,6 +277,12 @@ def check_scalar(ctx):
         else:
             ctx.ob(f"solve_for_scalar:{name}", "inconclusive" if worst == "unknown" else "unencoded", worst)
     check_nonvector(ctx)
+    nb = nonatomic_bad()
+    if nb:
+        ctx.violation("C16:solve_for_vector:non-atomic unknown", "; ".join(nb[:3]) + f" ({len(nb)} cases)",
+                      "import sys\nfrom checks import c16\nb = c16.nonatomic_bad()\nprint(b)\nif b:\n    print('REPRODUCED'); sys.exit(1)\n")
+    else:
+        ctx.ob("solve_for_vector: a non-atomic 'unknown' (-a, 2 a, x a, a/2, a + c) is refused or answered by an equation that follows from the original (40 requests, concrete)", "discharged", nontrivial=False)
     try:
         cb = complex_coeff_bad()
     except Exception as e:
@@ -292,7 +298,7 @@ def check_scalar(ctx):
     E = env()
     a, b = E["vs"]["a"], E["vs"]["b"]
     al = E["al"]
-    for name, eqn in (("equation", sp.Eq(al * a, b, evaluate=False)), ("expression", al * a - b), ("scalar-equation", sp.Eq(al, 2 * E["be"]))):
+    for name, eqn in apply_cases():
         try:
             r = apply(eqn, lambda e: F(e))
             want_l, want_r = (F(eqn.lhs), F(eqn.rhs)) if isinstance(eqn, sp.Eq) else (F(eqn), F(sp.S.Zero))
@@ -304,6 +310,17 @@ def check_scalar(ctx):
             ctx.ob(f"apply:{name}", "discharged", nontrivial=False)
         else:
             ctx.violation(f"C16:apply:{name}", f"apply({eqn}, F) = {r}", REPLAY_SCALAR.format(name="apply:" + name))
+
+
+def apply_cases():
+    """equations / expressions handed to apply(); sides with a leading minus sign, numeric and symbolic coefficients, sums on either side"""
+    E = env()
+    a, b, c = E["vs"]["a"], E["vs"]["b"], E["vs"]["c"]
+    al, be = E["al"], E["be"]
+    ev = lambda l, r: sp.Eq(l, r, evaluate=False)
+    return [("equation", ev(al * a, b)), ("expression", al * a - b), ("scalar-equation", sp.Eq(al, 2 * be)),
+            ("minus-lhs", ev(-2 * a, b)), ("minus-both", ev(-a, -b)), ("minus-lhs-sum", ev(-al * a + b, c)), ("minus-rhs", ev(a, -b - c)),
+            ("minus-expression", -a + be * b), ("minus-scalar-equation", sp.Eq(-al, be)), ("minus-scalar-sum", sp.Eq(-al - 1, be - 2))]
 
 
 def complex_coeff_bad():
@@ -400,6 +417,44 @@ def check_nonvector(ctx):
                 ctx.violation(f"C16:nonvector:{nm}", f"solve_for_vector on {nm} + c ({fn} form): {got}; " + ("this IS a vector expression" if legit else "not a vector expression: must be refused"), REPLAY_NONVECTOR)
 
 
+def nonatomic_bad():
+    """a request whose "unknown" is not an atomic vector (-a, 2 a, x a, a/2, -cross(c, a)): refused, or -- if the library answers -- the returned
+    equation must at least FOLLOW from the original one (checked at assignments that satisfy the original; concrete rationals)"""
+    from symplyphysics.core.experimental.solvers import solve_for_vector
+    from vlib.vecsem import NumVec
+    E = env()
+    V = E["V"]
+    a, b, c = E["vs"]["a"], E["vs"]["b"], E["vs"]["c"]
+    x = sp.Symbol("qx", real=True)
+    A3, C3 = [sp.Rational(3, 2), sp.Rational(-2, 3), sp.Rational(5, 7)], [sp.Rational(1, 4), sp.Rational(2), sp.Rational(-3, 5)]
+    xv = sp.Rational(-5, 3)
+    # (label, expression = 0, requested "unknown", value of b that makes the expression vanish given a, c, x)
+    cases = [("2a - b", 2 * a - b, lambda: [2 * t for t in A3]), ("x a - b + c", x * a - b + c, lambda: [xv * t + u for t, u in zip(A3, C3)]),
+             ("-a + b", -a + b, lambda: list(A3)), ("a/2 + b", a / 2 + b, lambda: [-t / 2 for t in A3])]
+    bad = []
+    for label, expr, bval in cases:
+        for ulabel, unknown in (("-a", -a), ("2 a", 2 * a), ("x a", x * a), ("a/2", a / 2), ("a + c", a + c)):
+            for rf in (False, True):
+                try:
+                    r = solve_for_vector(expr, unknown, rf)
+                except (ValueError, TypeError):
+                    continue
+                except Exception as ex:
+                    bad.append(f"{label} for {ulabel}: raised {type(ex).__name__}")
+                    continue
+                nv = NumVec({id(a): A3, id(b): bval(), id(c): C3}, {"qx": xv})
+                try:
+                    resid = nv.vec(r.lhs - r.rhs)
+                    orig = nv.vec(expr)
+                except Exception as ex:
+                    bad.append(f"{label} for {ulabel} (reduce_factor={rf}): answered {r}, which cannot be evaluated ({type(ex).__name__})")
+                    continue
+                assert all(sp.simplify(o) == 0 for o in orig), (label, orig)
+                if any(sp.simplify(t) != 0 for t in resid):
+                    bad.append(f"{label} = 0 rearranged for {ulabel} (reduce_factor={rf}): answered {r}, which does not hold where the original equation holds")
+    return bad
+
+
 REPLAY_SCALAR = r'''
 import sys
 import sympy as sp
@@ -410,8 +465,8 @@ name = {name!r}
 E = c16.env()
 bad = False
 if name.startswith("apply:"):
-    F = sp.Function("F"); a, b = E["vs"]["a"], E["vs"]["b"]; al = E["al"]
-    for eqn in (sp.Eq(al * a, b, evaluate=False), al * a - b, sp.Eq(al, 2 * E["be"])):
+    F = sp.Function("F")
+    for _nm, eqn in c16.apply_cases():
         r = apply(eqn, lambda e: F(e))
         wl, wr = (F(eqn.lhs), F(eqn.rhs)) if isinstance(eqn, sp.Eq) else (F(eqn), F(sp.S.Zero))
         if not (isinstance(r, sp.Eq) and r.lhs == wl and r.rhs == wr): bad = True; print(eqn, "->", r)
